@@ -136,13 +136,14 @@ Inductive leaf :=
 | LScale (s : space) (c : T)               (* ScalingOperator / IdentityOperator *)
 | LMul (s : space) (v : list T)            (* MultiplyOperator(v), domain = range = s *)
 | LMat (n : nat) (rows : list (list T))    (* MatrixOperator: rn(n) -> rn(#rows) *)
-| LInner (v : list T)                      (* InnerProductOperator(v): rn -> field *)
+| LInner (w v : list T)                    (* InnerProductOperator(v): rn -> field;  <x, v> = sum_i w_i x_i v_i,
+                                              w = the space's weighting as an array (all ones when unweighted) *)
 | LZero (s s' : space)                     (* ZeroOperator(s, s') *)
 | LConst (s s' : space) (c : list T)       (* ConstantOperator(c, domain=s, range=s') *)
 | LPow (s : space) (p : Z)                 (* PowerOperator(s, p), integer p *)
 | LUf (f : ufn) (n : nat)                  (* odl.ufunc_ops.f(rn(n)) *)
-| LNorm (n : nat)                          (* NormOperator(rn(n)) *)
-| LDist (v : list T)                       (* DistOperator(v) *)
+| LNorm (w : list T)                       (* NormOperator(rn(#w) with weights w) *)
+| LDist (w v : list T)                     (* DistOperator(v), weights w *)
 | LAbs (k : nat)                           (* user-defined nonlinear operator no. k *)
 | LAbsD (k : nat) (x : list T)             (* the linear operator its derivative(x) returns *)
 | LPwNorm (n : nat) (p : Z) (w : list T)   (* PointwiseNorm(rn(n)^k, exponent p in {1,2}, weights w), k = #w *)
@@ -155,8 +156,9 @@ Definition ldom (l : leaf) : space :=
   match l with
   | LScale s _ | LMul s _ | LZero s _ | LConst s _ _ | LPow s _ => s
   | LMat n _ => SV n
-  | LInner v | LDist v => SV (length v)
-  | LUf _ n | LNorm n => SV n
+  | LInner _ v | LDist _ v => SV (length v)
+  | LNorm w => SV (length w)
+  | LUf _ n => SV n
   | LAbs k | LAbsD k _ => adom P k
   | LPwNorm n _ w | LPwInner n w _ => SP (repeat n (length w))
   | LRe s | LIm s | LCMod s | LCMod2 s | LCModD _ s _ => s
@@ -166,7 +168,7 @@ Definition lran (l : leaf) : space :=
   | LScale s _ | LMul s _ | LPow s _ => s
   | LZero _ s' | LConst _ s' _ => s'
   | LMat _ rows => SV (length rows)
-  | LInner _ | LDist _ | LNorm _ => SF
+  | LInner _ _ | LDist _ _ | LNorm _ => SF
   | LUf _ n => SV n
   | LAbs k | LAbsD k _ => aran P k
   | LPwNorm n _ _ | LPwInner n _ _ => SV n
@@ -176,12 +178,12 @@ Definition all_zero (c : list T) : bool := forallb (fun a => a =? nzero) c.
 (* the `linear` flag handed to Operator.__init__ *)
 Definition llin (l : leaf) : bool :=
   match l with
-  | LScale _ _ | LMul _ _ | LMat _ _ | LInner _ | LZero _ _ | LAbsD _ _ | LPwInner _ _ _
+  | LScale _ _ | LMul _ _ | LMat _ _ | LInner _ _ | LZero _ _ | LAbsD _ _ | LPwInner _ _ _
   | LRe _ | LIm _ | LCModD _ _ _ => true
   | LConst _ _ c => all_zero c              (* linear = (constant.norm() == 0) *)
   | LPow _ p => (p =? 1)%Z                  (* linear = (exponent == 1) *)
   | LUf f _ => ufunc_linear f
-  | LNorm _ | LDist _ | LAbs _ | LPwNorm _ _ _ | LCMod _ | LCMod2 _ => false
+  | LNorm _ | LDist _ _ | LAbs _ | LPwNorm _ _ _ | LCMod _ | LCMod2 _ => false
   end.
 Definition lwt (l : leaf) : bool :=
   match l with
@@ -190,6 +192,7 @@ Definition lwt (l : leaf) : bool :=
   | LRe s | LIm s | LCMod s | LCMod2 s => negb (is_field s)
   | LCModD _ s x => negb (is_field s) && Nat.eqb (length x) (sdim s)
   | LMat n rows => forallb (fun r => Nat.eqb (length r) n) rows
+  | LInner w v | LDist w v => Nat.eqb (length w) (length v)
   | LConst _ s' c => Nat.eqb (length c) (sdim s')
   | LAbsD k x => Nat.eqb (length x) (sdim (adom P k))
   | LPwNorm n p w => ((p =? 1)%Z || (p =? 2)%Z) && negb (Nat.eqb (length w) 0)
@@ -201,13 +204,13 @@ Definition leval (l : leaf) (x : list T) : list T :=
   | LScale _ c => vscal c x
   | LMul _ v => vmul x v
   | LMat _ rows => mvec rows x
-  | LInner v => [dot x v]
+  | LInner w v => [wdot w x v]
   | LZero _ s' => vconst (sdim s') nzero
   | LConst _ _ c => c
   | LPow _ p => map (fun a => zpow a p) x
   | LUf f _ => map (usem f) x
-  | LNorm _ => [rt P (dot x x)]
-  | LDist v => [rt P (normsq (vsub x v))]
+  | LNorm w => [rt P (wdot w x x)]
+  | LDist w v => [rt P (wdot w (vsub x v) (vsub x v))]
   | LAbs k => afun P k x
   | LAbsD k x0 => ader P k x0 x
   | LPwNorm n p w => if (p =? 1)%Z then pwnorm1 n w x else pwnorm2 n w x
@@ -349,9 +352,9 @@ Definition lderiv (l : leaf) (x : list T) : oexpr :=
                | Some e => OLeaf (LMul (SV n) (map (ueval e) x))
                | None => OLeaf l
                end
-  | LNorm n => let nrm := rt P (dot x x) in OLeaf (LInner (map (fun a => a / nrm) x))
-  | LDist v => let df := vsub x v in let dist := rt P (normsq df) in
-               OLeaf (LInner (map (fun a => a / dist) df))
+  | LNorm w => let nrm := rt P (wdot w x x) in OLeaf (LInner w (map (fun a => a / nrm) x))
+  | LDist w v => let df := vsub x v in let dist := rt P (wdot w df df) in
+                 OLeaf (LInner w (map (fun a => a / dist) df))
   | LAbs k => OLeaf (LAbsD k x)
   | LPwNorm n p w =>
       (* inner_vf = f * |f|^(p-2) / N^(p-1):  sign(f) for p = 1,  f / N (where N != 0) for p = 2 *)
@@ -365,8 +368,8 @@ Definition lderiv_ok (l : leaf) (x : list T) : bool :=
   match l with
   | LConst _ _ _ | LPow _ _ | LAbs _ | LPwNorm _ _ _ | LCMod _ | LCMod2 _ => true
   | LUf f _ => match ufunc_deriv f with Some _ => true | None => ufunc_linear f end
-  | LNorm _ => negb (rt P (dot x x) =? nzero)
-  | LDist v => negb (rt P (normsq (vsub x v)) =? nzero)
+  | LNorm w => negb (rt P (wdot w x x) =? nzero)
+  | LDist w v => negb (rt P (wdot w (vsub x v) (vsub x v)) =? nzero)
   | _ => llin l
   end.
 
